@@ -129,6 +129,37 @@ func c20R1(p *Prog, r *Report) {
 		}
 	}
 	r.Check(reaches, rule, "cred.(*ManagedServer).saveToFile:uses-atomic-replace", p.posStr(sv.Body.Pos()), "saveToFile writes through the rename protocol", "saveToFile does not reach the rename protocol")
+	// success means written: every return that may carry a nil error lies past the err == nil
+	// edge of the atomic write
+	var writes []CallSite
+	for _, cs := range sv.AllCalls() {
+		if cs.Fn == nil {
+			continue
+		}
+		isWrite := osFn(cs.Fn, "Rename")
+		if callee := p.CtxOfObj(cs.Fn); callee != nil && callee.Pkg == sv.Pkg {
+			for _, c2 := range callee.AllCalls() {
+				if c2.Fn != nil && osFn(c2.Fn, "Rename") {
+					isWrite = true
+				}
+			}
+		}
+		if isWrite {
+			writes = append(writes, cs)
+		}
+	}
+	for _, ret := range sv.Returns() {
+		if sv.ErrAtReturn(ret) == ErrNonNil {
+			continue
+		}
+		ok := false
+		for _, w := range writes {
+			if w.SuccessGuards(ret) {
+				ok = true
+			}
+		}
+		r.Check(ok, rule, "cred.(*ManagedServer).saveToFile:success-means-written@"+exprStr(sv.G.V[ret].Node), p.posStr(sv.G.V[ret].Node.Pos()), "a nil error is returned only after the atomic write succeeded", "saveToFile can report success without having written the current user set (a path to `return nil` bypasses the write): the store keeps a stale set — e.g. deleted users come back after a restart — while the API acknowledged the change")
+	}
 	// cachedContent assigned only after the write succeeded
 	for _, fa := range sv.FieldAccesses(mp("cred"), "ManagedServer", map[string]bool{"cachedContent": true}) {
 		if !fa.Write {
